@@ -12,6 +12,8 @@ const CARRIERS: [&str; 9] = ["vec", "option", "map-value", "map-key", "box", "ar
 const TYPE_POSITIONS: [&str; 9] =
     ["struct-field", "newtype-struct", "variant-payload", "variant-field", "alias", "serialized-as-field", "serialized-as-struct", "serialized-as-alias", "const-type"];
 const SKIPS: [Skip; 3] = [Skip::No, Skip::Serde, Skip::Typeshare];
+/// for the unsupported-types family also the two half skips, under which the member is still on the wire in one direction
+const TYPE_SKIPS: [Skip; 5] = [Skip::No, Skip::Serde, Skip::Typeshare, Skip::SerializingOnly, Skip::DeserializingOnly];
 /// top level; nested modules; statements of a function body; a block expression (`const _: () = { … };`); a function inside a module
 const PLACEMENTS: [&[&str]; 5] = [&[], &["a", "b"], &["fn:handler"], &["const:"], &["a", "fn:setup"]];
 
@@ -145,9 +147,10 @@ pub fn check_type_case(c: &TypeCase, choices: &[u32], acc: &mut Acc) {
     if !c.chain.is_empty() || c.skip != Skip::No {
         acc.nontrivial.insert(report::fnv64(&src));
     }
+    let half = if c.skip != Skip::No && !c.skip.skipped() { format!("|marker={:?}", c.skip) } else { String::new() };
     let outer = c.chain.first().copied().unwrap_or("none");
     let inner = c.chain.last().copied().unwrap_or("none");
-    let shape = format!("construct={}|pos={}|depth={}|outer={outer}|inner={inner}{}", c.bad, c.position, c.chain.len(), if c.placement == 0 { String::new() } else { format!("|declared-in={}", PLACEMENTS[c.placement].join("/")) });
+    let shape = format!("construct={}|pos={}|depth={}|outer={outer}|inner={inner}{}{half}", c.bad, c.position, c.chain.len(), if c.placement == 0 { String::new() } else { format!("|declared-in={}", PLACEMENTS[c.placement].join("/")) });
     let detail = |extra: serde_json::Value| json!({"choices": choices, "construct": c.bad, "carrier_chain": c.chain, "position": c.position, "skip": format!("{:?}", c.skip), "source": src, "observation": extra});
     match parse_errors(&src) {
         Err(e) => {
@@ -155,7 +158,7 @@ pub fn check_type_case(c: &TypeCase, choices: &[u32], acc: &mut Acc) {
             acc.vios.add(Violation { sig: format!("C08|lib|crash-instead-of-error|{shape}"), detail: detail(json!(e)) });
         }
         Ok(errs) => {
-            if c.skip == Skip::No {
+            if !c.skip.skipped() {
                 acc.outcomes.insert(report::fnv64(&format!("rejected={}", !errs.is_empty())));
                 if errs.is_empty() {
                     acc.vios.add(Violation { sig: format!("C08|lib|accepted-silently|{shape}"), detail: detail(json!("no parse error recorded")) });
@@ -195,7 +198,7 @@ fn gen_type_case(ch: &mut Chooser, max_depth: usize) -> TypeCase {
     let position = *ch.pick("position", &TYPE_POSITIONS);
     let depth = ch.choose("depth", max_depth + 1);
     let chain: Vec<&'static str> = (0..depth).map(|_| *ch.pick("carrier", &CARRIERS)).collect();
-    let skip = *ch.pick("skip", &SKIPS);
+    let skip = *ch.pick("skip", &TYPE_SKIPS);
     // where the items are declared: for the short chains
     let placement = if depth <= 1 { ch.choose("declared_in", PLACEMENTS.len()) } else { 0 };
     TypeCase { placement, bad, chain, position, skip }
@@ -438,7 +441,7 @@ pub fn run(args: &[String]) -> i32 {
             report::threads(),
             u64::MAX,
         );
-        merge(&mut rep, "unsupported_types", accs, &stats, json!({"constructs": BAD_TYPES, "carriers": CARRIERS, "carrier_chain_depth": format!("0..={max_depth}"), "positions": TYPE_POSITIONS, "skip_states": 3, "items_declared_in (chains of length ≤ 1)": ["top level", "mod a::b", "fn body", "block expression of a const", "fn inside a module"]}));
+        merge(&mut rep, "unsupported_types", accs, &stats, json!({"constructs": BAD_TYPES, "carriers": CARRIERS, "carrier_chain_depth": format!("0..={max_depth}"), "positions": TYPE_POSITIONS, "skip_states": ["none", "serde(skip)", "typeshare(skip)", "serde(skip_serializing) alone: not skipped", "serde(skip_deserializing) alone: not skipped"], "items_declared_in (chains of length ≤ 1)": ["top level", "mod a::b", "fn body", "block expression of a const", "fn inside a module"]}));
     }
     // deeper chains with at most two distinct constructors (stated cap)
     if rep.thorough() {
